@@ -2,7 +2,7 @@
    referrer share a set of reference fields that have been resolved to a referral; a field in the set is left
    alone by the filters of the other kinds.  This is what the current code (Res/NameRef.v, the faithful model)
    is refuted against in the rewrite-cascade findings: on their witnesses this transformer keeps the field at
-   the referent's name (C03Facts.cascade_repaired_*), and it agrees with Res/NameRef.v on inputs without a
+   the referent's name (the cascade_repaired examples of C03Facts), and it agrees with Res/NameRef.v on inputs without a
    shared field hit (resolved_agrees_closed).  A repair of this shape (/tmp/fixes/S-nameref-shared-field.patch,
    nameref.ResolvedFields + Filter.Resolved) was proposed and DECLINED in fix wave 4 (new exported type and
    Filter field: a design decision for the maintainers), so the cascade classes stay findings.
